@@ -32,11 +32,17 @@ def fresh (n : String) (s : SEnv) (d : DEnv) : Bool :=
 def condMatch (d : DEnv) (cw cr : Cond) : Bool :=
   cw.op == cr.op && cw.n == cr.n && d.contains (cw.var, cr.var)
 
+/-- the writer certainly emits at least one byte here (a presence flag) -/
+def nonEmptyHead : L → Bool
+  | .opt _ _ _ => true
+  | .mopt _ _ _ _ => true
+  | _ => false
+
 def agree : Nat → L → L → SEnv → DEnv → Bool
   | 0, _, _, _, _ => false
   | f+1, w, .ite c t e rest, s, d =>
     match s.lookup c.var with
-    | some v => agree f w ((if c.test v then t else e).append rest) s d
+    | some v => (if c.test v then t else e).noAvail && agree f w ((if c.test v then t else e).append rest) s d
     | none =>
       match w with
       | .ite cw tw ew restw =>
@@ -46,6 +52,7 @@ def agree : Nat → L → L → SEnv → DEnv → Bool
     match s.lookup c.var with
     | some v => !c.test v && agree f w r s d
     | none => false
+  | f+1, w, .avail r, s, d => nonEmptyHead w && agree f w r s d
   | _+1, .nil, .nil, _, _ => true
   | f+1, .fld n p g w, .fld n' p' g' r, s, d => n == n' && p == p' && g == g' && agree f w r s d
   | f+1, .fld n p _ w, .skip q r, s, d =>
@@ -61,6 +68,18 @@ def agree : Nat → L → L → SEnv → DEnv → Bool
     c == c' && n == n' && agree f b b' s d && agree f w r s d
   | f+1, .wrap b w, .wrap b' r, s, d => agree f b b' s d && agree f w r s d
   | f+1, .hdr w, .hdr r, s, d => agree f w r s d
+  | f+1, .times n nm b w, .times n' nm' b' r, s, d =>
+    n == n' && nm == nm' && agree f b b' s d && agree f w r s d
+  | f+1, .sub nm b w, .sub nm' b' r, s, d => nm == nm' && agree f b b' s d && agree f w r s d
+  | f+1, .kfld nm p k w, .key nm' p' v r, s, d =>
+    nm == nm' && p == p' && fresh v s d && agree f w r ((v, k) :: s) d
+  | f+1, .mopt m nm b w, .vopt v nm' b' r, s, d =>
+    nm == nm' && decide (1 ≤ m ∧ m < 256) && fresh v s d && agree f b b' ((v, (m : Int)) :: s) d && agree f w r s d
+  | f+1, .mrep m nm b w, .vrep v nm' b' r, s, d =>
+    nm == nm' && decide (9 ≤ m ∧ m < 256) && fresh v s d && agree f b b' ((v, (m : Int)) :: s) d && agree f w r s d
+  | f+1, .rep c nm b w, .vrep v nm' b' r, s, d =>
+    c == .dec && nm == nm' && fresh v s d && agree f b b' s d && agree f w r s d
+  | f+1, .lit p v w, .srep p' _ r, s, d => p == p' && v == 0 && agree f w r s d
   | _+1, _, _, _, _ => false
 
 /-- the comparison used by the generated obligations: enough fuel for every unfolding -/
@@ -91,6 +110,24 @@ def L.WF (vr : ValueRT) : L → Env → String → Rec → Prop
   | .wrap body rest, e, pfx, x =>
       body.WF vr e pfx x ∧ (body.write e pfx x).length < 2147483648 ∧ rest.WF vr e pfx x
   | .hdr rest, e, pfx, x => (hdrOf pfx x).WF ∧ rest.WF vr e pfx x
+  | .times n name body rest, e, pfx, x =>
+      (∀ i, i < n → body.WF vr e (elemPfx pfx name i) x) ∧ rest.WF vr e pfx x
+  | .sub name body rest, e, pfx, x => body.WF vr e (pfx ++ name ++ ".") x ∧ rest.WF vr e pfx x
+  | .kfld name p k rest, e, pfx, x =>
+      Prim.wf vr p (x (pfx ++ name)) ∧ x (pfx ++ name) = .int k ∧ rest.WF vr e pfx x
+  | .key name p _ rest, e, pfx, x => Prim.wf vr p (x (pfx ++ name)) ∧ rest.WF vr e pfx x
+  | .mopt _ name body rest, e, pfx, x =>
+      (present pfx name x = true → body.WF vr e pfx x) ∧ rest.WF vr e pfx x
+  | .vopt _ name body rest, e, pfx, x =>
+      (present pfx name x = true → body.WF vr e pfx x) ∧ rest.WF vr e pfx x
+  | .mrep _ name body rest, e, pfx, x =>
+      (present pfx name x = false → countOf pfx name x = 0) ∧ inRange 8 (countOf pfx name x : Int) ∧
+      (∀ i, i < countOf pfx name x → body.WF vr e (elemPfx pfx name i) x) ∧ rest.WF vr e pfx x
+  | .vrep _ name body rest, e, pfx, x =>
+      inRange 8 (countOf pfx name x : Int) ∧
+      (∀ i, i < countOf pfx name x → body.WF vr e (elemPfx pfx name i) x) ∧ rest.WF vr e pfx x
+  | .srep cnt _ rest, e, pfx, x => Prim.wf vr cnt (.int 0) ∧ rest.WF vr e pfx x
+  | .avail body, e, pfx, x => body.WF vr e pfx x
   | .unknown _, _, _, _ => False
 
 /-! ### reading an appended layout -/
@@ -103,7 +140,7 @@ def RDec.seq (a b : RDec) : RDec := fun e bs =>
     | none => none
     | some (o2, e2, r2) => some (o1 ++ o2, e2, r2)
 
-theorem read_append (a b : L) (pfx : String) (e : Env) (bs : Bytes) :
+theorem read_append (a b : L) (h : a.noAvail = true) (pfx : String) (e : Env) (bs : Bytes) :
     (a.append b).read pfx e bs = RDec.seq (a.read pfx) (b.read pfx) e bs := by
   induction a generalizing e bs with
   | nil =>
@@ -112,6 +149,8 @@ theorem read_append (a b : L) (pfx : String) (e : Env) (bs : Bytes) :
     | none => rfl
     | some x => obtain ⟨o, e', r⟩ := x; simp
   | fld n p g rest ih =>
+    simp only [L.noAvail] at h
+    have ih := ih h
     simp only [L.append, L.read, RDec.seq]
     cases p.decode bs with
     | none => rfl
@@ -126,18 +165,24 @@ theorem read_append (a b : L) (pfx : String) (e : Env) (bs : Bytes) :
         cases b.read pfx e1 r1 with
         | none => rfl
         | some z => obtain ⟨o2, e2, r2⟩ := z; simp
-  | lit p v rest ih => simp only [L.append, L.read]; exact ih e bs
+  | lit p v rest ih => simp only [L.noAvail] at h; simp only [L.append, L.read]; exact ih h e bs
   | skip p rest ih =>
+    simp only [L.noAvail] at h
+    have ih := ih h
     simp only [L.append, L.read, RDec.seq]
     cases p.decode bs with
     | none => rfl
     | some x => obtain ⟨v, r⟩ := x; simp only [ih, RDec.seq]
   | var n p rest ih =>
+    simp only [L.noAvail] at h
+    have ih := ih h
     simp only [L.append, L.read, RDec.seq]
     cases p.decode bs with
     | none => rfl
     | some x => obtain ⟨v, r⟩ := x; simp only [ih, RDec.seq]
   | ite c t el rest _ _ ih =>
+    simp only [L.noAvail, Bool.and_eq_true] at h
+    have ih := ih h.2
     simp only [L.append, L.read, RDec.seq]
     cases (if c.eval e then t.read pfx e bs else el.read pfx e bs) with
     | none => rfl
@@ -153,11 +198,15 @@ theorem read_append (a b : L) (pfx : String) (e : Env) (bs : Bytes) :
         | none => rfl
         | some z => obtain ⟨o3, e3, r3⟩ := z; simp
   | guard c rest ih =>
+    simp only [L.noAvail] at h
+    have ih := ih h
     simp only [L.append, L.read, RDec.seq]
     split
     · rfl
     · have := ih e bs; simp only [RDec.seq] at this; exact this
   | opt n body rest _ ih =>
+    simp only [L.noAvail] at h
+    have ih := ih h
     simp only [L.append, L.read, RDec.seq]
     cases Prim.decode .u8 bs with
     | none => rfl
@@ -188,6 +237,8 @@ theorem read_append (a b : L) (pfx : String) (e : Env) (bs : Bytes) :
           | none => rfl
           | some u => obtain ⟨o3, e3, r3⟩ := u; simp
   | rep cnt n body rest _ ih =>
+    simp only [L.noAvail] at h
+    have ih := ih h
     simp only [L.append, L.read, RDec.seq]
     cases cnt.decode bs with
     | none => rfl
@@ -208,6 +259,8 @@ theorem read_append (a b : L) (pfx : String) (e : Env) (bs : Bytes) :
           | none => rfl
           | some u => obtain ⟨o3, e3, r3⟩ := u; simp
   | wrap body rest _ ih =>
+    simp only [L.noAvail] at h
+    have ih := ih h
     simp only [L.append, L.read, RDec.seq]
     cases P.run decBlob bs with
     | none => rfl
@@ -228,6 +281,8 @@ theorem read_append (a b : L) (pfx : String) (e : Env) (bs : Bytes) :
           | none => rfl
           | some u => obtain ⟨o3, e3, r3⟩ := u; simp
   | hdr rest ih =>
+    simp only [L.noAvail] at h
+    have ih := ih h
     simp only [L.append, L.read, RDec.seq]
     cases P.run decHeader bs with
     | none => rfl
@@ -242,6 +297,227 @@ theorem read_append (a b : L) (pfx : String) (e : Env) (bs : Bytes) :
         cases b.read pfx e1 r1 with
         | none => rfl
         | some z => obtain ⟨o2, e2, r2⟩ := z; simp
+  | times k n body rest _ ih =>
+    simp only [L.noAvail] at h
+    have ih := ih h
+    simp only [L.append, L.read, RDec.seq]
+    cases readElems (fun q => body.read q) pfx n 0 k e bs with
+    | none => rfl
+    | some y =>
+      obtain ⟨o1, e1, r1⟩ := y
+      simp only [ih, RDec.seq]
+      cases rest.read pfx e1 r1 with
+      | none => rfl
+      | some z =>
+        obtain ⟨o2, e2, r2⟩ := z
+        simp only []
+        cases b.read pfx e2 r2 with
+        | none => rfl
+        | some u => obtain ⟨o3, e3, r3⟩ := u; simp
+  | sub n body rest _ ih =>
+    simp only [L.noAvail] at h
+    have ih := ih h
+    simp only [L.append, L.read, RDec.seq]
+    cases body.read (pfx ++ n ++ ".") e bs with
+    | none => rfl
+    | some y =>
+      obtain ⟨o1, e1, r1⟩ := y
+      simp only [ih, RDec.seq]
+      cases rest.read pfx e1 r1 with
+      | none => rfl
+      | some z =>
+        obtain ⟨o2, e2, r2⟩ := z
+        simp only []
+        cases b.read pfx e2 r2 with
+        | none => rfl
+        | some u => obtain ⟨o3, e3, r3⟩ := u; simp
+  | kfld n p k rest ih =>
+    simp only [L.noAvail] at h
+    have ih := ih h
+    simp only [L.append, L.read, RDec.seq]
+    cases p.decode bs with
+    | none => rfl
+    | some x =>
+      obtain ⟨v, r⟩ := x
+      simp only [ih, RDec.seq]
+      cases rest.read pfx e r with
+      | none => rfl
+      | some y =>
+        obtain ⟨o1, e1, r1⟩ := y
+        simp only []
+        cases b.read pfx e1 r1 with
+        | none => rfl
+        | some z => obtain ⟨o2, e2, r2⟩ := z; simp
+  | key n p vn rest ih =>
+    simp only [L.noAvail] at h
+    have ih := ih h
+    simp only [L.append, L.read, RDec.seq]
+    cases p.decode bs with
+    | none => rfl
+    | some x =>
+      obtain ⟨v, r⟩ := x
+      simp only [ih, RDec.seq]
+      cases rest.read pfx (e.set vn v.toInt) r with
+      | none => rfl
+      | some y =>
+        obtain ⟨o1, e1, r1⟩ := y
+        simp only []
+        cases b.read pfx e1 r1 with
+        | none => rfl
+        | some z => obtain ⟨o2, e2, r2⟩ := z; simp
+  | mopt m n body rest _ ih =>
+    simp only [L.noAvail] at h
+    have ih := ih h
+    simp only [L.append, L.read, RDec.seq]
+    cases Prim.decode .u8 bs with
+    | none => rfl
+    | some x =>
+      obtain ⟨flag, r⟩ := x
+      simp only []
+      split
+      · cases body.read pfx e r with
+        | none => rfl
+        | some y =>
+          obtain ⟨o1, e1, r1⟩ := y
+          simp only [ih, RDec.seq]
+          cases rest.read pfx e1 r1 with
+          | none => rfl
+          | some z =>
+            obtain ⟨o2, e2, r2⟩ := z
+            simp only []
+            cases b.read pfx e2 r2 with
+            | none => rfl
+            | some u => obtain ⟨o3, e3, r3⟩ := u; simp
+      · simp only [ih, RDec.seq]
+        cases rest.read pfx e r with
+        | none => rfl
+        | some z =>
+          obtain ⟨o2, e2, r2⟩ := z
+          simp only []
+          cases b.read pfx e2 r2 with
+          | none => rfl
+          | some u => obtain ⟨o3, e3, r3⟩ := u; simp
+  | vopt vn n body rest _ ih =>
+    simp only [L.noAvail] at h
+    have ih := ih h
+    simp only [L.append, L.read, RDec.seq]
+    cases Prim.decode .u8 bs with
+    | none => rfl
+    | some x =>
+      obtain ⟨flag, r⟩ := x
+      simp only []
+      split
+      · cases body.read pfx (e.set vn flag.toInt) r with
+        | none => rfl
+        | some y =>
+          obtain ⟨o1, e1, r1⟩ := y
+          simp only [ih, RDec.seq]
+          cases rest.read pfx e1 r1 with
+          | none => rfl
+          | some z =>
+            obtain ⟨o2, e2, r2⟩ := z
+            simp only []
+            cases b.read pfx e2 r2 with
+            | none => rfl
+            | some u => obtain ⟨o3, e3, r3⟩ := u; simp
+      · simp only [ih, RDec.seq]
+        cases rest.read pfx (e.set vn 0) r with
+        | none => rfl
+        | some z =>
+          obtain ⟨o2, e2, r2⟩ := z
+          simp only []
+          cases b.read pfx e2 r2 with
+          | none => rfl
+          | some u => obtain ⟨o3, e3, r3⟩ := u; simp
+  | mrep m n body rest _ ih =>
+    simp only [L.noAvail] at h
+    have ih := ih h
+    simp only [L.append, L.read, RDec.seq]
+    cases Prim.decode .u8 bs with
+    | none => rfl
+    | some x =>
+      obtain ⟨bb, r⟩ := x
+      simp only []
+      split
+      · simp only [ih, RDec.seq]
+        cases rest.read pfx (e.set "" 0) r with
+        | none => rfl
+        | some z =>
+          obtain ⟨o2, e2, r2⟩ := z
+          simp only []
+          cases b.read pfx e2 r2 with
+          | none => rfl
+          | some u => obtain ⟨o3, e3, r3⟩ := u; simp
+      · cases (if bb.toInt ≤ 8 then P.run (decDecimalLen bb.toInt.toNat) r else P.run decDecimal r) with
+        | none => rfl
+        | some w =>
+          obtain ⟨cnt, r0⟩ := w
+          simp only []
+          cases readElems (fun q => body.read q) pfx n 0 cnt.toNat (e.set "" bb.toInt) r0 with
+          | none => rfl
+          | some y =>
+            obtain ⟨o1, e1, r1⟩ := y
+            simp only [ih, RDec.seq]
+            cases rest.read pfx e1 r1 with
+            | none => rfl
+            | some z =>
+              obtain ⟨o2, e2, r2⟩ := z
+              simp only []
+              cases b.read pfx e2 r2 with
+              | none => rfl
+              | some u => obtain ⟨o3, e3, r3⟩ := u; simp
+  | vrep vn n body rest _ ih =>
+    simp only [L.noAvail] at h
+    have ih := ih h
+    simp only [L.append, L.read, RDec.seq]
+    cases Prim.decode .u8 bs with
+    | none => rfl
+    | some x =>
+      obtain ⟨bb, r⟩ := x
+      simp only []
+      split
+      · simp only [ih, RDec.seq]
+        cases rest.read pfx (e.set vn 0) r with
+        | none => rfl
+        | some z =>
+          obtain ⟨o2, e2, r2⟩ := z
+          simp only []
+          cases b.read pfx e2 r2 with
+          | none => rfl
+          | some u => obtain ⟨o3, e3, r3⟩ := u; simp
+      · cases (if bb.toInt ≤ 8 then P.run (decDecimalLen bb.toInt.toNat) r else P.run decDecimal r) with
+        | none => rfl
+        | some w =>
+          obtain ⟨cnt, r0⟩ := w
+          simp only []
+          cases readElems (fun q => body.read q) pfx n 0 cnt.toNat (e.set vn bb.toInt) r0 with
+          | none => rfl
+          | some y =>
+            obtain ⟨o1, e1, r1⟩ := y
+            simp only [ih, RDec.seq]
+            cases rest.read pfx e1 r1 with
+            | none => rfl
+            | some z =>
+              obtain ⟨o2, e2, r2⟩ := z
+              simp only []
+              cases b.read pfx e2 r2 with
+              | none => rfl
+              | some u => obtain ⟨o3, e3, r3⟩ := u; simp
+  | srep cnt body rest _ ih =>
+    simp only [L.noAvail] at h
+    have ih := ih h
+    simp only [L.append, L.read, RDec.seq]
+    cases cnt.decode bs with
+    | none => rfl
+    | some x =>
+      obtain ⟨k, r⟩ := x
+      simp only []
+      cases readElems (fun q => body.read q) pfx "" 0 k.toInt.toNat e r with
+      | none => rfl
+      | some y =>
+        obtain ⟨o1, e1, r1⟩ := y
+        simp only [ih, RDec.seq]
+  | avail body _ => simp [L.noAvail] at h
   | unknown w => simp [L.append, L.read, RDec.seq]
 
 /-! ### the invariant relating the reader's locals to the writer's constants and parameters -/
@@ -344,12 +620,12 @@ theorem elems_sound (vr : ValueRT) (bw br : L) (s : SEnv) (d : DEnv) (hb : Sound
 
 /-- a reader-side version test whose local was bound to a writer constant is resolved statically -/
 theorem static_ite (vr : ValueRT) {w t e rr : L} {c : Cond} {s : SEnv} {d : DEnv} {v : Int}
-    (hl : s.lookup c.var = some v)
+    (hl : s.lookup c.var = some v) (hna : (if c.test v then t else e).noAvail = true)
     (hs : Sound vr w ((if c.test v then t else e).append rr) s d) : Sound vr w (.ite c t e rr) s d := by
   intro E ER pfx x rest hI hwf
   obtain ⟨ER', h1, hI'⟩ := hs E ER pfx x rest hI hwf
   refine ⟨ER', ?_, hI'⟩
-  rw [read_append] at h1
+  rw [read_append _ _ hna] at h1
   have hc : c.eval ER = c.test v := by simp only [Cond.eval]; rw [hI.1 _ _ hl]
   simp only [L.read, hc]
   simp only [RDec.seq] at h1
@@ -357,6 +633,37 @@ theorem static_ite (vr : ValueRT) {w t e rr : L} {c : Cond} {s : SEnv} {d : DEnv
   · simp only [hv, if_true] at h1 ⊢; exact h1
   · have hv' : c.test v = false := by simpa using hv
     simp only [hv', Bool.false_eq_true, if_false] at h1 ⊢; exact h1
+
+theorem nonEmptyHead_write {w : L} (h : nonEmptyHead w = true) (E : Env) (pfx : String) (x : Rec) (rest : Bytes) :
+    (w.write E pfx x ++ rest).isEmpty = false := by
+  cases w <;> simp only [nonEmptyHead] at h <;> try (exact absurd h (by decide))
+  all_goals
+    simp only [L.write]
+    split <;> simp
+
+theorem u8_cons (vr : ValueRT) (b : Nat) (r : Bytes) (h : b < 256) :
+    Prim.decode .u8 (b :: r) = some (.int b, r) := by
+  have := Prim.rt vr .u8 (.int b) r (by simp [Prim.wf]; omega)
+  simpa [Prim.encode, beN, Nat.mod_eq_of_lt h] using this
+
+theorem Inv.setFresh {E ER : Env} {s : SEnv} {d : DEnv} {n : String} (v : Int)
+    (hf : fresh n s d = true) (h : Inv E ER s d) : Inv E (ER.set n v) s d :=
+  (h.bindStatic v hf).dropStatic (fresh_spec hf).1
+
+theorem encDecimal_zero_head (n : Int) (tl : Bytes) (h : encDecimal n = 0 :: tl) : n = 0 ∧ tl = [] := by
+  have hh := encDecimal_head n
+  rw [h] at hh
+  simp only [List.headD_cons] at hh
+  have : n = 0 := by
+    unfold leastClass at hh
+    by_cases h0 : n = 0
+    · exact h0
+    · simp only [h0, if_false] at hh
+      repeat' split at hh
+      all_goals omega
+  subst this
+  simp [encDecimal] at h
+  exact ⟨rfl, h⟩
 
 theorem agree_sound (vr : ValueRT) : ∀ (f : Nat) (w r : L) (s : SEnv) (d : DEnv),
     agree f w r s d = true → Sound vr w r s d := by
@@ -370,9 +677,10 @@ theorem agree_sound (vr : ValueRT) : ∀ (f : Nat) (w r : L) (s : SEnv) (d : DEn
     · obtain ⟨c, t, e, rr, rfl⟩ := hr
       cases hl : s.lookup c.var with
       | some v =>
-        have h' : agree f w ((if c.test v then t else e).append rr) s d = true := by
+        have h' : ((if c.test v then t else e).noAvail && agree f w ((if c.test v then t else e).append rr) s d) = true := by
           cases w <;> simp only [agree, hl] at h <;> exact h
-        exact static_ite vr hl (ih _ _ _ _ h')
+        simp only [Bool.and_eq_true] at h'
+        exact static_ite vr hl h'.1 (ih _ _ _ _ h'.2)
       | none =>
         cases w with
         | ite cw tw ew rw' =>
@@ -421,11 +729,163 @@ theorem agree_sound (vr : ValueRT) : ∀ (f : Nat) (w r : L) (s : SEnv) (d : DEn
           refine ⟨ER1, ?_, hI1⟩
           simp only [L.read, hc, Bool.false_eq_true, if_false]
           exact h1
+      by_cases ha : ∃ body, r = .avail body
+      · obtain ⟨rb, rfl⟩ := ha
+        have h2 : (nonEmptyHead w && agree f w rb s d) = true := by
+          cases w <;> simpa only [agree] using h
+        simp only [Bool.and_eq_true] at h2
+        have sr := ih _ _ _ _ h2.2
+        intro E ER pfx x rest hI hwf
+        obtain ⟨ER1, h1, hI1⟩ := sr E ER pfx x rest hI hwf
+        refine ⟨ER1, ?_, hI1⟩
+        simp only [L.read, nonEmptyHead_write h2.1 E pfx x rest, Bool.false_eq_true, if_false]
+        exact h1
       cases w <;> cases r <;> first
         | (exfalso; exact hr ⟨_, _, _, _, rfl⟩)
         | (exfalso; exact hg ⟨_, _, rfl⟩)
+        | (exfalso; exact ha ⟨_, rfl⟩)
         | (exfalso; cases h; done)
         | skip
+      case times.times n nm b w n' nm' b' r =>
+        simp only [agree, Bool.and_eq_true, beq_iff_eq] at h
+        obtain ⟨⟨⟨rfl, rfl⟩, hb⟩, hrest⟩ := h
+        have sb := ih _ _ _ _ hb
+        have sr := ih _ _ _ _ hrest
+        intro E ER pfx x rest hI hwf
+        obtain ⟨hwf1, hwf2⟩ := hwf
+        simp only [L.read, L.write, L.expect, List.append_assoc]
+        obtain ⟨ER1, h1, hI1⟩ := elems_sound vr b b' s d sb E pfx nm x (w.write E pfx x ++ rest)
+          n 0 ER hI (fun j _ hj => hwf1 j (by omega))
+        rw [h1]
+        obtain ⟨ER2, h2, hI2⟩ := sr E ER1 pfx x rest hI1 hwf2
+        simp only []
+        rw [h2]
+        exact ⟨ER2, rfl, hI2⟩
+      case sub.sub nm b w nm' b' r =>
+        simp only [agree, Bool.and_eq_true, beq_iff_eq] at h
+        obtain ⟨⟨rfl, hb⟩, hrest⟩ := h
+        have sb := ih _ _ _ _ hb
+        have sr := ih _ _ _ _ hrest
+        intro E ER pfx x rest hI hwf
+        obtain ⟨hwf1, hwf2⟩ := hwf
+        simp only [L.read, L.write, L.expect, List.append_assoc]
+        obtain ⟨ER1, h1, hI1⟩ := sb E ER (pfx ++ nm ++ ".") x (w.write E pfx x ++ rest) hI hwf1
+        rw [h1]
+        obtain ⟨ER2, h2, hI2⟩ := sr E ER1 pfx x rest hI1 hwf2
+        simp only []
+        rw [h2]
+        exact ⟨ER2, rfl, hI2⟩
+      case kfld.key nm p k w nm' p' v r =>
+        simp only [agree, Bool.and_eq_true, beq_iff_eq] at h
+        obtain ⟨⟨⟨rfl, rfl⟩, hf⟩, hrest⟩ := h
+        have sr := ih _ _ _ _ hrest
+        intro E ER pfx x rest hI hwf
+        obtain ⟨hp, hk, hwf2⟩ := hwf
+        obtain ⟨ER1, h1, hI1⟩ := sr E (ER.set v k) pfx x rest (hI.bindStatic k hf) hwf2
+        simp only [L.read, L.write, L.expect, List.append_assoc]
+        rw [Prim.rt vr p _ _ hp]
+        simp only [hk, Val.toInt]
+        rw [h1]
+        exact ⟨ER1, rfl, hI1.dropStatic (fresh_spec hf).1⟩
+      case mopt.vopt m nm b w v nm' b' r =>
+        simp only [agree, Bool.and_eq_true, beq_iff_eq, decide_eq_true_eq] at h
+        obtain ⟨⟨⟨⟨rfl, hm⟩, hf⟩, hb⟩, hrest⟩ := h
+        have sb := ih _ _ _ _ hb
+        have sr := ih _ _ _ _ hrest
+        intro E ER pfx x rest hI hwf
+        obtain ⟨hwf1, hwf2⟩ := hwf
+        simp only [L.read, L.write, L.expect, List.append_assoc]
+        cases hp : present pfx nm x
+        · simp only [Bool.false_eq_true, if_false, List.cons_append, List.nil_append]
+          rw [u8_cons vr 0 _ (by omega)]
+          obtain ⟨ER1, h1, hI1⟩ := sr E (ER.set v 0) pfx x rest (hI.setFresh 0 hf) hwf2
+          simp only [Val.toInt, Int.natCast_zero, bne_self_eq_false, Bool.false_eq_true, if_false]
+          rw [h1]
+          exact ⟨ER1, rfl, hI1⟩
+        · simp only [if_true, List.cons_append]
+          rw [u8_cons vr m _ hm.2]
+          obtain ⟨ER1, h1, hI1⟩ := sb E (ER.set v m) pfx x (w.write E pfx x ++ rest) (hI.bindStatic m hf) (hwf1 hp)
+          obtain ⟨ER2, h2, hI2⟩ := sr E ER1 pfx x rest (hI1.dropStatic (fresh_spec hf).1) hwf2
+          have em : (((m : Nat) : Int) != 0) = true := by simp; omega
+          simp only [Val.toInt, em, if_true]
+          rw [h1]
+          simp only []
+          rw [h2]
+          exact ⟨ER2, rfl, hI2⟩
+      case mrep.vrep m nm b w v nm' b' r =>
+        simp only [agree, Bool.and_eq_true, beq_iff_eq, decide_eq_true_eq] at h
+        obtain ⟨⟨⟨⟨rfl, hm⟩, hf⟩, hb⟩, hrest⟩ := h
+        have sb := ih _ _ _ _ hb
+        have sr := ih _ _ _ _ hrest
+        intro E ER pfx x rest hI hwf
+        obtain ⟨hz, hc, hwf1, hwf2⟩ := hwf
+        simp only [L.read, L.write, L.expect, List.append_assoc]
+        cases hp : present pfx nm x
+        · simp only [Bool.false_eq_true, if_false, List.cons_append, List.nil_append]
+          rw [u8_cons vr 0 _ (by omega)]
+          obtain ⟨ER1, h1, hI1⟩ := sr E (ER.set v 0) pfx x rest (hI.setFresh 0 hf) hwf2
+          simp only [Val.toInt, Int.natCast_zero, if_true]
+          rw [h1, hz hp]
+          exact ⟨ER1, by simp [expectElems], hI1⟩
+        · simp only [if_true, List.cons_append, List.append_assoc]
+          rw [u8_cons vr m _ hm.2]
+          have em : ¬ (((m : Nat) : Int) = 0) := by omega
+          have em8 : ¬ (((m : Nat) : Int) ≤ 8) := by omega
+          simp only [Val.toInt, em, em8, if_false]
+          rw [run_decDecimal _ _ hc]
+          simp only [Int.toNat_natCast]
+          obtain ⟨ER1, h1, hI1⟩ := elems_sound vr b b' ((v, (m : Int)) :: s) d sb E pfx nm x (w.write E pfx x ++ rest)
+            (countOf pfx nm x) 0 (ER.set v m) (hI.bindStatic m hf) (fun j _ hj => hwf1 j (by omega))
+          rw [h1]
+          obtain ⟨ER2, h2, hI2⟩ := sr E ER1 pfx x rest (hI1.dropStatic (fresh_spec hf).1) hwf2
+          simp only []
+          rw [h2]
+          exact ⟨ER2, rfl, hI2⟩
+      case rep.vrep c nm b w v nm' b' r =>
+        simp only [agree, Bool.and_eq_true, beq_iff_eq] at h
+        obtain ⟨⟨⟨⟨rfl, rfl⟩, hf⟩, hb⟩, hrest⟩ := h
+        have sb := ih _ _ _ _ hb
+        have sr := ih _ _ _ _ hrest
+        intro E ER pfx x rest hI hwf
+        obtain ⟨hc, hwf1, hwf2⟩ := hwf
+        simp only [Prim.wf] at hc
+        simp only [L.read, L.write, L.expect, List.append_assoc, Prim.encode]
+        obtain ⟨c, tl, he, hc8, hrun⟩ := encDecimal_split (countOf pfx nm x : Int)
+          (writeElems (fun q => b.write E q x) pfx nm 0 (countOf pfx nm x) ++ (w.write E pfx x ++ rest)) hc
+        rw [he, List.cons_append, u8_cons vr c _ (by omega)]
+        simp only [Val.toInt]
+        by_cases hc0 : c = 0
+        · subst hc0
+          obtain ⟨hn0, htl⟩ := encDecimal_zero_head _ _ he
+          have hn : countOf pfx nm x = 0 := by omega
+          subst htl
+          simp only [Int.natCast_zero, if_true, List.nil_append, hn, writeElems, expectElems]
+          obtain ⟨ER1, h1, hI1⟩ := sr E (ER.set v 0) pfx x rest (hI.setFresh 0 hf) hwf2
+          rw [h1]
+          exact ⟨ER1, by simp, hI1⟩
+        · have e0 : ¬ ((c : Int) = 0) := by omega
+          have e8 : ((c : Int) ≤ 8) := by omega
+          simp only [e0, e8, if_true, if_false, Int.toNat_natCast]
+          rw [hrun]
+          simp only [Int.toNat_natCast]
+          obtain ⟨ER1, h1, hI1⟩ := elems_sound vr b b' s d sb E pfx nm x (w.write E pfx x ++ rest)
+            (countOf pfx nm x) 0 (ER.set v c) (hI.setFresh c hf) (fun j _ hj => hwf1 j (by omega))
+          rw [h1]
+          obtain ⟨ER2, h2, hI2⟩ := sr E ER1 pfx x rest hI1 hwf2
+          simp only []
+          rw [h2]
+          exact ⟨ER2, rfl, hI2⟩
+      case lit.srep p v w p' bb r =>
+        simp only [agree, Bool.and_eq_true, beq_iff_eq] at h
+        obtain ⟨⟨rfl, rfl⟩, hrest⟩ := h
+        have sr := ih _ _ _ _ hrest
+        intro E ER pfx x rest hI hwf
+        obtain ⟨hp, hwf2⟩ := hwf
+        obtain ⟨ER1, h1, hI1⟩ := sr E ER pfx x rest hI hwf2
+        simp only [L.read, L.write, L.expect, List.append_assoc]
+        rw [Prim.rt vr p _ _ hp]
+        simp only [Val.toInt, Int.toNat_zero, readElems]
+        exact ⟨ER1, h1, hI1⟩
       case nil.nil =>
         intro E ER pfx x rest hI _
         exact ⟨ER, by simp [L.read, L.write, L.expect], hI⟩
